@@ -43,11 +43,15 @@ type endp struct {
 	extra string // stream, flow: at ; processor: condition
 }
 
-type connDef struct{ from, to endp }
+type connDef struct {
+	from, to endp
+	null     bool // a `~` list entry
+}
 
 type procDef struct {
 	key, ptype string
 	params     [][2]string
+	null       bool // `key: ~`
 }
 
 type flowDef struct {
@@ -57,6 +61,7 @@ type flowDef struct {
 	req    []connDef
 	res    []connDef
 	hasURL bool
+	status []string // filter.status_code
 }
 
 // strategy of a quota / internal limit (fields as written into the YAML; absent = not written)
@@ -265,12 +270,19 @@ func flowYAML(f *flowDef) string {
 	fmt.Fprintf(&b, "name: %s\n", yq(f.name))
 	if f.hasURL {
 		fmt.Fprintf(&b, "filter:\n  url: %s\n", yq(f.url))
+		if len(f.status) > 0 {
+			fmt.Fprintf(&b, "  status_code: [%s]\n", strings.Join(f.status, ", "))
+		}
 	}
 	b.WriteString("processors:\n")
 	if len(f.procs) == 0 {
 		b.WriteString("  {}\n")
 	}
 	for _, p := range f.procs {
+		if p.null {
+			fmt.Fprintf(&b, "  %s: ~\n", yq(p.key))
+			continue
+		}
 		fmt.Fprintf(&b, "  %s:\n    processor: %s\n", yq(p.key), yq(p.ptype))
 		if len(p.params) > 0 {
 			b.WriteString("    parameters:\n")
@@ -290,6 +302,10 @@ func flowYAML(f *flowDef) string {
 		}
 		fmt.Fprintf(&b, "  %s:\n", d.n)
 		for _, c := range d.cs {
+			if c.null {
+				b.WriteString("    - ~\n")
+				continue
+			}
 			s := sideYAML("from", c.from) + sideYAML("to", c.to)
 			b.WriteString("    - " + strings.TrimPrefix(s, "      "))
 		}
